@@ -328,13 +328,9 @@ UPGRADER:
 			return ErrInvalidHTTPStatus
 		case stateStatus:
 			switch c {
-			case ' ':
-				if p.status == "" {
-					p.status = string(data[start:i])
-				}
 			case '\r':
 				if p.status == "" {
-					p.status = string(data[start:i])
+					p.status = strings.TrimRight(string(data[start:i]), " ")
 				}
 				p.Processor.OnStatus(p, p.statusCode, p.status)
 				p.statusCode = 0
